@@ -80,3 +80,10 @@ Qed.
 Lemma marshal_changes_submit_report :
   exists p, sms_unmarshal (hx "019119000000000000000000") = Ok p /\ arg_after sms_env p <> p.
 Proof. eexists. split; [vm_compute; reflexivity|]. vm_compute. congruence. Qed.
+
+(* case form: the implementation decoded [bs], marshalled the structure and then read the structure back as [ovs] *)
+Definition sms_arg_after_is (bs : bytes) (name : string) (ovs : list oval) : bool :=
+  match sms_unmarshal bs with
+  | Ok p => let '(n, vs) := arg_after sms_env p in String.eqb n name && ovals_eqb vs ovs
+  | _ => false
+  end.
